@@ -33,12 +33,27 @@ static mpz_class mzs(int64_t x)
     return -(r + 1);
 }
 
+// process-global C++ locale in force while the conversions run: 0 = classic, 1 = a locale whose numpunct facet groups digits
+// ("1,000"): text produced by the library must not depend on it
+#include <locale>
+static int g_locale = 0;
+struct GroupingPunct : std::numpunct<char>
+{
+    char do_thousands_sep() const override { return ','; }
+    std::string do_grouping() const override { return "\3"; }
+};
+static void set_locale(int k)
+{
+    g_locale = k;
+    if (k) std::locale::global(std::locale(std::locale::classic(), new GroupingPunct));
+    else std::locale::global(std::locale::classic());
+}
 static void check_raw(u64 raw, long long &ev)
 {
     E e;
     e.fe = raw;
     u64 canon = raw % GP;
-    std::string cs_ = fmt("kind=raw raw=%s", hex(raw).c_str());
+    std::string cs_ = fmt("kind=raw raw=%s", hex(raw).c_str()) + (g_locale ? " locale=grouping" : "");
     // toU64
     u64 u = Goldilocks::toU64(e);
     ev++;
@@ -97,10 +112,18 @@ static void check_raw(u64 raw, long long &ev)
         if (Goldilocks::equal(e, f) != same) rep().viol("C15.wrong.equal.diff-class", cs_, "");
     }
     // toString in a few radices, round trip through fromString
-    for (int radix : {10, 16, 2, 36})
+    for (int radix : {10, 16, 8, 2, 36})
     {
         std::string t = Goldilocks::toString(e, radix);
         ev++;
+        // the text must be the canonical value written with the digits of the radix and nothing else
+        bool clean = !t.empty();
+        for (char ch : t)
+        {
+            int d = (ch >= '0' && ch <= '9') ? ch - '0' : (ch >= 'a' && ch <= 'z') ? ch - 'a' + 10 : (ch >= 'A' && ch <= 'Z') ? ch - 'A' + 10 : 99;
+            if (d >= radix) clean = false;
+        }
+        if (!clean) { rep().viol("C15.wrong.toString", cs_ + fmt(" radix=%d", radix), "string holds characters that are not digits of the radix: " + t); break; }
         mpz_class back(t, radix);
         if (back != mz(canon)) { rep().viol("C15.wrong.toString", cs_ + fmt(" radix=%d", radix), "string is not the canonical value: " + t); break; }
         E g = Goldilocks::fromString(t, radix);
@@ -196,6 +219,7 @@ static int run_one(const Args &args)
     auto m = parse_case(args.one);
     long long ev = 0;
     std::string k = cs(m, "kind");
+    if (cs(m, "locale", "") == "grouping") set_locale(1);
     if (k == "raw") check_raw(cu(m, "raw"), ev);
     else if (k == "s32") check_s32((int32_t)strtol(cs(m, "v").c_str(), 0, 10), ev);
     else if (k == "s64") check_raw((u64)strtoll(cs(m, "v").c_str(), 0, 10), ev);
@@ -266,6 +290,11 @@ int main(int argc, char **argv)
         R.erase(std::unique(R.begin(), R.end()), R.end());
         long long ev = 0, nt = 0;
         for (size_t i = 0; i < R.size(); i++) { check_raw(R[i], ev); if (R[i] >= GP) nt++; } // sequential: results must not depend on who else is converting
+        // the same conversions with a digit-grouping global locale installed (as an application that calls std::locale::global does)
+        set_locale(1);
+        for (size_t i = 0; i < R.size(); i += 3) check_raw(R[i], ev);
+        set_locale(0);
+        rep().stat("conversions_under_grouping_locale", (long long)((R.size() + 2) / 3));
         ev_total += ev;
         states += (long long)R.size();
         nontriv += nt;
